@@ -180,7 +180,21 @@ def step (c : Cfg) (s : St) (a : Actor) : Option St :=
 
 def sys (c : Cfg) : Sys St Actor := { init := init c, step := step c }
 
-def allDone (s : St) : Bool := s.ws.all (· == .done)
+def WPc.isDone : WPc → Bool
+  | .done => true
+  | _ => false
+
+/-- the worker holds a token (it has taken one and not yet returned it) -/
+def WPc.holds : WPc → Bool
+  | .recv | .send _ | .sendErr _ => true
+  | _ => false
+
+/-- the worker has left its loop -/
+def WPc.exiting : WPc → Bool
+  | .tokret | .done => true
+  | _ => false
+
+def allDone (s : St) : Bool := s.ws.all WPc.isDone
 
 /-- results a worker is holding (computed, not yet sent) -/
 def heldOf : WPc → Option Res
